@@ -197,7 +197,28 @@ fn cond_pkg() -> Package<Cursor<Vec<u8>>> {
         })
         .collect();
     pkg.insert_rows(Insert::into("T").rows(rows)).expect("insert");
+    // a one-row pad table: joined in front of T it moves T's columns to
+    // positions 31..35 of the joined row (stored tables stop at 32 columns,
+    // join results do not)
+    let mut pad = vec![Column::build("p0").primary_key().int16()];
+    for i in 1..31 {
+        pad.push(Column::build(format!("p{i}")).nullable().int16());
+    }
+    pkg.create_table("P", pad).expect("create_table P");
+    let mut row = vec![Value::Int(1)];
+    row.extend((1..31).map(|i| if i % 3 == 0 { Value::Null } else { Value::Int(i) }));
+    pkg.insert_rows(Insert::into("P").row(row)).expect("insert P");
     pkg
+}
+
+/// The same tree with every column `c` renamed to `T.c` (its name in a join).
+fn qualify(e: &E) -> E {
+    match e {
+        E::Lit(_) => e.clone(),
+        E::Col(c) => E::Col(format!("T.{c}")),
+        E::Un(op, a) => E::un(*op, qualify(a)),
+        E::Bin(op, a, b) => E::bin(*op, qualify(a), qualify(b)),
+    }
 }
 
 /// For each row: Some(true) must match, Some(false) must not, None either.
@@ -246,6 +267,21 @@ pub fn check_cond(e: &E) -> Check {
         rows.map_err(|err| io("select", err))?
     };
     verdict("select", (1..=6).map(|k| keys.contains(&k)).collect())?;
+    // the same condition as ON clause and as filter of a 36-column join
+    if e.has_column() {
+        let q = qualify(e);
+        for (what, sel) in [
+            ("join-on", Select::table("P").inner_join(Select::table("T"), build(&q))),
+            ("join-filter", Select::table("P").inner_join(Select::table("T"), msi::Expr::boolean(true)).with(build(&q))),
+        ] {
+            let keys: Vec<i32> = {
+                let rows = crate::engine::catch(|| pkg.select_rows(sel).map(|rows| rows.map(|r| r[31].as_int().unwrap_or(0)).collect::<Vec<i32>>()))
+                    .map_err(|(loc, msg)| Fail::new(format!("{P} panic at={loc}"), format!("{what} with condition {} panicked: {msg}", q.show())))?;
+                rows.map_err(|err| io(what, err))?
+            };
+            verdict(what, (1..=6).map(|k| keys.contains(&k)).collect())?;
+        }
+    }
     // update: mark matching rows
     crate::engine::catch(|| pkg.update_rows(Update::table("T").set("m", Value::Int(7)).with(build(e))))
         .map_err(|(loc, msg)| Fail::new(format!("{P} panic at={loc}"), format!("update WHERE {} panicked: {msg}", e.show())))?
